@@ -353,6 +353,11 @@ type mergeCtx struct {
 func newMergeCtx(wl *wlMerge) *mergeCtx {
 	c := &mergeCtx{wl: wl, exp: refMerge(wl)}
 	o := doMerge(deliver(wl, wl.Order), wl.Schema)
+	if o.Model != nil {
+		// a private copy: if the library hands out messages it keeps (an interned
+		// SourceInfo), the canonical result must not change along with them
+		o.Model = proto.Clone(o.Model).(*openfgav1.AuthorizationModel)
+	}
 	c.canon = &o
 	return c
 }
